@@ -181,6 +181,28 @@ func (e *c07ex) Exec(op string) string {
 	if e.c == nil {
 		return "bad-op"
 	}
+	if w[0] == "trace" {
+		// the client's trace context travelling in the transient map of every following proposal
+		if len(w) != 2 {
+			return "bad-op"
+		}
+		tp := []byte("00-0af7651916cd43dd8448eb211c80319c-b7ad6b7169203331-01")
+		switch w[1] {
+		case "0":
+			e.c.Transient = nil
+		case "1":
+			e.c.Transient = map[string][]byte{"traceparent": tp}
+		case "2":
+			e.c.Transient = map[string][]byte{"traceparent": tp, "tracestate": []byte("rojo=00f067aa0ba902b7,congo=t61rcWkgMzE")}
+		case "3":
+			e.c.Transient = map[string][]byte{"traceparent": tp, "baggage": []byte("userId=alice")}
+		case "4":
+			e.c.Transient = map[string][]byte{"traceparent": tp, "tracestate": []byte("rojo=1"), "baggage": []byte("userId=alice,serverNode=DF28,isProduction=false")}
+		default:
+			return "bad-op"
+		}
+		return "ok"
+	}
 	if w[0] == "bal" {
 		var parts []string
 		for _, n := range []string{"I", "F", "u0", "u1", "u2"} {
@@ -329,6 +351,9 @@ func genC07(c *Cfg, emit func([]string)) {
 			h = append(h, "cb fund "+pick(users...)+" 100000")
 		}
 		n := 4 + c.Rng.Intn(maxSteps)
+		if c.Rng.Intn(2) == 0 {
+			h = append(h, "trace "+pick("1", "2", "3", "4"))
+		}
 		for j := 0; j < n; j++ {
 			mode := pick("cb", "ct", "db", "dt", "dt", "db")
 			switch c.Rng.Intn(12) {
